@@ -90,4 +90,40 @@ theorem stereo_roundtrip_full_false : ¬ ChythonModel.Props.C10.StereoRoundTripF
       simp only [hu, Except.map, Except.ok.injEq] at e2 hrest
       simp [e2] at hrest
 
+/-! ## the perception next to a hypervalent centre is not the chemistry's (informational; not a defect of the pack format)
+
+`CC=S(=O)(C)C`: `cumulenes` walks from C2 into the sulfur, which has four neighbours, and reports the piece `C2=S3` as a double bond
+of its own; `_stereo_cis_trans_terminals[2] = (2, 3)`, but `2=3` is not a maximal chain in the sense of `Spec/Cumulene.lean` (the
+sulfur has a second double bond, to O4). Hence the full statement `TerminalsAreMaximalChainEnds` fails and the theorem is stated with
+the `BrokenPiece` alternative / under `NoHyperDouble`. -/
+
+def exSulfox : List PAtom :=
+  [{ num := 1, z := 6, iso := none, stereo := none, x := 0, y := 0, h := some 3, charge := 0, radical := false, nbrs := [⟨2, 1, none⟩] },
+   { num := 2, z := 6, iso := none, stereo := none, x := 0, y := 0, h := some 1, charge := 0, radical := false,
+     nbrs := [⟨1, 1, none⟩, ⟨3, 2, none⟩] },
+   { num := 3, z := 16, iso := none, stereo := none, x := 0, y := 0, h := some 0, charge := 0, radical := false,
+     nbrs := [⟨2, 2, none⟩, ⟨4, 2, none⟩, ⟨5, 1, none⟩, ⟨6, 1, none⟩] },
+   { num := 4, z := 8, iso := none, stereo := none, x := 0, y := 0, h := some 0, charge := 0, radical := false, nbrs := [⟨3, 2, none⟩] },
+   { num := 5, z := 6, iso := none, stereo := none, x := 0, y := 0, h := some 3, charge := 0, radical := false, nbrs := [⟨3, 1, none⟩] },
+   { num := 6, z := 6, iso := none, stereo := none, x := 0, y := 0, h := some 3, charge := 0, radical := false, nbrs := [⟨3, 1, none⟩] }]
+
+theorem sulfox_perceived : perceive exSulfox = .ok ⟨[[2, 3], [4, 3]], [([2, 3], 1, 4, none, none)],
+    [(2, 2, 3), (3, 2, 3)], [(2, 2, 3), (3, 2, 3)], []⟩ := by rfl
+
+open ChythonModel.Spec.Cumulene in
+theorem terminals_full_false : ¬ ChythonModel.Props.C10.TerminalsAreMaximalChainEnds := by
+  intro h
+  have hg : GraphOK exSulfox := (wfb_sound ⟨exSulfox, []⟩ (by decide +kernel)).graph
+  obtain ⟨path, hmem, hmax, _, hh, hl, _⟩ := h exSulfox hg _ sulfox_perceived 2 2 3 (by rfl)
+  simp only [List.mem_cons, List.not_mem_nil, or_false] at hmem
+  rcases hmem with rfl | rfl
+  · -- path = [2, 3]: the sulfur end has another double bond
+    have hdb : DoubleBond can exSulfox 3 4 := by
+      refine ⟨_, by simp [exSulfox]; exact Or.inr (Or.inr (Or.inl rfl)), _,
+        by simp [exSulfox]; exact Or.inr (Or.inr (Or.inr (Or.inl rfl))), rfl, rfl, by decide, by decide,
+        ⟨4, 2, none⟩, by simp, rfl, rfl⟩
+    have := hmax.last [] 2 3 rfl 4 hdb
+    omega
+  · simp at hh
+
 end ChythonModel.Findings.C10
